@@ -218,6 +218,7 @@ def history(ctx, seed):
     shared_spec = S(["L2Cost", "L2Cost", "GaussianVarCost", "GaussianCovCost", "LazySSECost"][
         int(rng.integers(5))], param=None)
     shared_cost = build(shared_spec)
+    shared_det = []  # [(spec, the one change-detector instance handed to several anomalisers), ...]
     if rng.random() < 0.5:
         shared_cost.fit(datasets[0].copy())  # pre-fitted scorer passed to constructors
     for i in range(int(rng.integers(6, 13))):
@@ -254,6 +255,22 @@ def history(ctx, seed):
                 spec = [S("Saving", baseline_cost=inner), S("ChangeScore", cost=inner),
                         S("LocalAnomalyScore", cost=inner)][int(rng.integers(3))]
             o = Obj(spec, build(spec), "scorer")
+        elif r < 0.45 and (shared_det or rng.random() < 0.12) and len(shared_det) < 3:
+            # anomalisers sharing ONE change-detector instance: each must fit its own clone of it, so what one
+            # of them is fitted on never shows in the other (a data-dependent, tuned threshold makes it visible)
+            from skchange.anomaly_detectors.anomalisers import StatThresholdAnomaliser
+
+            if not shared_det:
+                dspec = S("MovingWindow", change_score=None, bandwidth=int(rng.integers(2, 5)), threshold_scale=None,
+                          level=float([0.05, 0.2][int(rng.integers(2))]), min_detection_interval=1)
+                shared_det.append((dspec, build(dspec)))
+            dspec, dobj = shared_det[0]
+            shared_det.append(None)
+            lo = float([-1.0, -0.3, 0.0][int(rng.integers(3))])
+            spec = S("StatThresholdAnomaliser", change_detector=copy.deepcopy(dspec), stat={"fn": "np.mean"},
+                     stat_lower=lo, stat_upper=lo + float([0.3, 1.0][int(rng.integers(2))]))
+            o = Obj(spec, StatThresholdAnomaliser(change_detector=dobj, stat=np.mean, stat_lower=spec["kw"]["stat_lower"],
+                                                  stat_upper=spec["kw"]["stat_upper"]), "detector", shared=True)
         elif r < 0.45:
             # detectors sharing ONE cost instance
             which = ["PELT", "MovingWindow", "SeededBinarySegmentation", "CircularBinarySegmentation"][
